@@ -13,7 +13,14 @@ DEFAULTS = dict(methodPut='PUT', methodPost='POST', methodDelete='DELETE', delet
                 contentTypeLatest='text/plain; version=0.0.4; charset=utf-8', headerName='Content-Type',
                 urlFmt=['', '/metrics/', '/', ''], pairFmt=['/', '/', ''], jobLit='job', base64Suffix='@base64',
                 emptyMarker='=', slashLit='/', httpPrefix='http://', allowedSchemes=['http', 'https'], rstripChars='/',
-                sortsGroupingKey=True, spaceAsPlus=False)
+                sortsGroupingKey=True, spaceAsPlus=False,
+                # the library's own handlers (_make_handler, default/passthrough/basic-auth, redirect_request)
+                mhMethodInstalled=True, mhTimeoutPassed=True, mhErrorFrom=400, mhErrorClass='OSError',
+                defaultBase='HTTPHandler', redirectBase='_PrometheusRedirectHandler',
+                authHeaderName='Authorization', authPrefix='Basic ', authSep=':',
+                redirSafeCodes=[301, 302, 303, 307], redirSafeMethods=['GET', 'HEAD'],
+                redirUnsafeCodes=[301, 302, 303], redirUnsafeMethods=['POST', 'PUT'],
+                redirSpaceFrom=' ', redirSpaceTo='%20', redirErrorClass='HTTPError', registryNoneIsDefault=True)
 
 
 def _emit(ok, v, why=''):
@@ -30,6 +37,19 @@ def _emit(ok, v, why=''):
     out += 'def sortsGroupingKey : Bool := %s\n' % ('true' if v['sortsGroupingKey'] else 'false')
     # which urllib encoder the plain branch uses: quote_plus(v) (space -> '+') or quote(v, safe='') (space -> %20)
     out += 'def spaceAsPlus : Bool := %s\n' % ('true' if v['spaceAsPlus'] else 'false')
+    # ---- the handlers: `_make_handler.handle`
+    # `request.get_method = lambda: method` present / `open(request, timeout=timeout)` carries the keyword
+    for name in ('mhMethodInstalled', 'mhTimeoutPassed', 'registryNoneIsDefault'):
+        out += 'def %s : Bool := %s\n' % (name, 'true' if v[name] else 'false')
+    # `if resp.code >= N` -> N; `> N` -> N + 1: the least status that raises
+    out += 'def mhErrorFrom : Nat := %d\n' % v['mhErrorFrom']
+    for name in ('mhErrorClass', 'defaultBase', 'redirectBase', 'authHeaderName', 'authPrefix', 'authSep',
+                 'redirSpaceFrom', 'redirSpaceTo', 'redirErrorClass'):
+        out += 'def %s : List Char := %s\n' % (name, chars(v[name]))
+    for name in ('redirSafeCodes', 'redirUnsafeCodes'):
+        out += 'def %s : List Nat := [%s]\n' % (name, ', '.join(str(int(c)) for c in v[name]))
+    for name in ('redirSafeMethods', 'redirUnsafeMethods'):
+        out += 'def %s : List (List Char) := %s\n' % (name, strlist(v[name]))
     return out + footer(TARGET)
 
 
@@ -69,6 +89,180 @@ def _fmt_call(node, n_fields):
             and not node.keywords):
         raise Fail('str.format call expected: %s' % ast.unparse(node))
     return _split_fmt(const(node.func.value, str), n_fields), node.args
+
+
+HANDLER_PARAMS = ['url', 'method', 'timeout', 'headers', 'data']
+
+
+def _tuple_consts(node, typ, what):
+    if not isinstance(node, (ast.Tuple, ast.List, ast.Set)):
+        raise Fail('%s: a literal tuple expected: %s' % (what, ast.unparse(node)))
+    return [const(e, typ) for e in node.elts]
+
+
+def _handlers(tree, v):
+    """_make_handler/handle, default_handler, passthrough_redirect_handler, basic_auth_handler/handle,
+    _PrometheusRedirectHandler.redirect_request"""
+    # ------------------------------------------------------------ _make_handler
+    f = find_func(tree, '_make_handler')
+    if [a.arg for a in f.args.args] != HANDLER_PARAMS + ['base_handler']:
+        raise Fail('_make_handler parameters %s' % [a.arg for a in f.args.args])
+    b = _body(f)
+    if not (len(b) == 2 and isinstance(b[0], ast.FunctionDef) and b[0].name == 'handle' and not b[0].args.args
+            and ast.unparse(b[1]) == 'return handle'):
+        raise Fail('_make_handler: def handle() + return handle expected')
+    h = _body(b[0])
+    src = [ast.unparse(x) for x in h]
+    if not src or src[0] != 'request = Request(url, data=data)':
+        raise Fail('_make_handler.handle: request = Request(url, data=data) expected: %s' % (src[:1],))
+    i = 1
+    v['mhMethodInstalled'] = False
+    if i < len(h) and src[i] == 'request.get_method = lambda: method':
+        v['mhMethodInstalled'] = True
+        i += 1
+    if not (i < len(h) and isinstance(h[i], ast.For) and not h[i].orelse and isinstance(h[i].target, ast.Tuple)
+            and [ast.unparse(e) for e in h[i].target.elts] == ['k', 'v'] and ast.unparse(h[i].iter) == 'headers'
+            and [ast.unparse(x) for x in h[i].body] == ['request.add_header(k, v)']):
+        raise Fail('_make_handler.handle: header loop / method installation not understood: %s' % src[i:i + 1])
+    i += 1
+    if i < len(h) and src[i] == 'resp = build_opener(base_handler).open(request, timeout=timeout)':
+        v['mhTimeoutPassed'] = True
+    elif i < len(h) and src[i] == 'resp = build_opener(base_handler).open(request)':
+        v['mhTimeoutPassed'] = False
+    else:
+        raise Fail('_make_handler.handle: open(...) call not understood: %s' % src[i:i + 1])
+    i += 1
+    if not (i == len(h) - 1 and isinstance(h[i], ast.If) and not h[i].orelse and len(h[i].body) == 1
+            and isinstance(h[i].body[0], ast.Raise)):
+        raise Fail('_make_handler.handle: a final `if resp.code >= N: raise …` expected')
+    t = h[i].test
+    if not (isinstance(t, ast.Compare) and ast.unparse(t.left) == 'resp.code' and len(t.ops) == 1
+            and isinstance(t.ops[0], (ast.GtE, ast.Gt))):
+        raise Fail('_make_handler.handle: status test not understood: %s' % ast.unparse(t))
+    n = const(t.comparators[0], int)
+    if isinstance(n, bool) or n < 0:
+        raise Fail('status threshold %r' % (n,))
+    v['mhErrorFrom'] = n if isinstance(t.ops[0], ast.GtE) else n + 1
+    r = h[i].body[0]
+    if not (r.cause is None and isinstance(r.exc, ast.Call) and isinstance(r.exc.func, ast.Name)):
+        raise Fail('raise <Class>(...) expected: %s' % ast.unparse(r))
+    v['mhErrorClass'] = r.exc.func.id
+    imports = [n for n in tree.body if isinstance(n, ast.ImportFrom) and n.module == 'urllib.request' and n.level == 0]
+    for name in ('Request', 'build_opener', 'HTTPHandler', 'HTTPRedirectHandler'):
+        if not any(a.name == name and a.asname is None for n in imports for a in n.names):
+            raise Fail('urllib.request.%s is not imported under its own name' % name)
+        if any(isinstance(n, (ast.FunctionDef, ast.ClassDef)) and n.name == name for n in tree.body):
+            raise Fail('%s is redefined in the module' % name)
+
+    # ------------------------------------------------------------ default_handler / passthrough_redirect_handler
+    def base_of(fname):
+        g = find_func(tree, fname)
+        if [a.arg for a in g.args.args] != HANDLER_PARAMS:
+            raise Fail('%s parameters' % fname)
+        gb = _body(g)
+        if not (len(gb) == 1 and isinstance(gb[0], ast.Return) and isinstance(gb[0].value, ast.Call)
+                and ast.unparse(gb[0].value.func) == '_make_handler' and not gb[0].value.keywords
+                and [ast.unparse(a) for a in gb[0].value.args[:5]] == HANDLER_PARAMS and len(gb[0].value.args) == 6
+                and isinstance(gb[0].value.args[5], ast.Name)):
+            raise Fail('%s: return _make_handler(url, method, timeout, headers, data, <Base>) expected' % fname)
+        return gb[0].value.args[5].id
+    v['defaultBase'] = base_of('default_handler')
+    v['redirectBase'] = base_of('passthrough_redirect_handler')
+    for fname in ('push_to_gateway', 'pushadd_to_gateway', 'delete_from_gateway'):
+        g = find_func(tree, fname)
+        names = [a.arg for a in g.args.args]
+        dflt = dict(zip(names[len(names) - len(g.args.defaults):], g.args.defaults))
+        if 'handler' not in dflt or ast.unparse(dflt['handler']) != 'default_handler':
+            raise Fail('%s: handler does not default to default_handler' % fname)
+
+    # ------------------------------------------------------------ basic_auth_handler
+    f = find_func(tree, 'basic_auth_handler')
+    if [a.arg for a in f.args.args] != HANDLER_PARAMS + ['username', 'password'] \
+            or [ast.unparse(d) for d in f.args.defaults] != ['None', 'None']:
+        raise Fail('basic_auth_handler parameters')
+    b = _body(f)
+    if not (len(b) == 2 and isinstance(b[0], ast.FunctionDef) and b[0].name == 'handle' and ast.unparse(b[1]) == 'return handle'):
+        raise Fail('basic_auth_handler: def handle() + return handle expected')
+    h = _body(b[0])
+    if not (len(h) == 2 and isinstance(h[0], ast.If) and not h[0].orelse
+            and ast.unparse(h[0].test) == 'username is not None and password is not None'
+            and ast.unparse(h[1]) == 'default_handler(url, method, timeout, headers, data)()'):
+        raise Fail('basic_auth_handler.handle: `if username is not None and password is not None: …; default_handler(…)()` expected')
+    a = h[0].body
+    if len(a) != 4:
+        raise Fail('basic_auth_handler.handle: four statements expected in the auth branch')
+    js = a[0].value
+    if not (isinstance(a[0], ast.Assign) and ast.unparse(a[0].targets[0]) == 'auth_value' and isinstance(js, ast.Call)
+            and isinstance(js.func, ast.Attribute) and js.func.attr == 'encode' and not js.args and not js.keywords
+            and isinstance(js.func.value, ast.JoinedStr) and len(js.func.value.values) == 3
+            and ast.unparse(js.func.value.values[0].value) == 'username' and ast.unparse(js.func.value.values[2].value) == 'password'
+            and isinstance(js.func.value.values[1], ast.Constant)):
+        raise Fail("auth_value = f'{username}<sep>{password}'.encode() expected: %s" % ast.unparse(a[0]))
+    v['authSep'] = js.func.value.values[1].value
+    if ast.unparse(a[1]) != 'auth_token = base64.b64encode(auth_value)':
+        raise Fail('auth_token = base64.b64encode(auth_value) expected: %s' % ast.unparse(a[1]))
+    c = a[2].value
+    if not (isinstance(a[2], ast.Assign) and ast.unparse(a[2].targets[0]) == 'auth_header' and isinstance(c, ast.BinOp)
+            and isinstance(c.op, ast.Add) and isinstance(c.left, ast.Constant) and isinstance(c.left.value, bytes)
+            and ast.unparse(c.right) == 'auth_token'):
+        raise Fail("auth_header = b'<prefix>' + auth_token expected: %s" % ast.unparse(a[2]))
+    v['authPrefix'] = c.left.value.decode('latin-1')
+    c = a[3].value if isinstance(a[3], ast.Expr) else None
+    if not (isinstance(c, ast.Call) and ast.unparse(c.func) == 'headers.append' and len(c.args) == 1
+            and isinstance(c.args[0], ast.Tuple) and len(c.args[0].elts) == 2 and ast.unparse(c.args[0].elts[1]) == 'auth_header'):
+        raise Fail("headers.append(('<name>', auth_header)) expected: %s" % ast.unparse(a[3]))
+    v['authHeaderName'] = const(c.args[0].elts[0], str)
+
+    # ------------------------------------------------------------ _PrometheusRedirectHandler.redirect_request
+    cls = [n for n in tree.body if isinstance(n, ast.ClassDef) and n.name == '_PrometheusRedirectHandler']
+    if len(cls) != 1 or [ast.unparse(x) for x in cls[0].bases] != ['HTTPRedirectHandler']:
+        raise Fail('_PrometheusRedirectHandler(HTTPRedirectHandler) expected')
+    if [n.name for n in cls[0].body if isinstance(n, (ast.FunctionDef, ast.Assign))] != ['redirect_request']:
+        raise Fail('_PrometheusRedirectHandler defines more than redirect_request')
+    f = find_func(tree, 'redirect_request', cls='_PrometheusRedirectHandler')
+    if [a.arg for a in f.args.args] != ['self', 'req', 'fp', 'code', 'msg', 'headers', 'newurl']:
+        raise Fail('redirect_request parameters')
+    b = _body(f)
+    kinds = [type(x).__name__ for x in b]
+    if kinds != ['Assign', 'If', 'Assign', 'Assign', 'Return']:
+        raise Fail('redirect_request statement shape %s' % kinds)
+    if ast.unparse(b[0]) != "m = getattr(req, 'method', req.get_method())":
+        raise Fail('redirect_request: m = getattr(req, "method", req.get_method()) expected')
+    t = b[1].test
+    ok = (isinstance(t, ast.UnaryOp) and isinstance(t.op, ast.Not) and isinstance(t.operand, ast.BoolOp)
+          and isinstance(t.operand.op, ast.Or) and len(t.operand.values) == 2 and not b[1].orelse)
+    pairs = []
+    if ok:
+        for conj in t.operand.values:
+            if not (isinstance(conj, ast.BoolOp) and isinstance(conj.op, ast.And) and len(conj.values) == 2
+                    and all(isinstance(x, ast.Compare) and len(x.ops) == 1 and isinstance(x.ops[0], ast.In) for x in conj.values)
+                    and ast.unparse(conj.values[0].left) == 'code' and ast.unparse(conj.values[1].left) == 'm'):
+                ok = False
+                break
+            pairs.append((_tuple_consts(conj.values[0].comparators[0], int, 'redirect codes'),
+                          _tuple_consts(conj.values[1].comparators[0], str, 'redirect methods')))
+    if not ok:
+        raise Fail('redirect_request: `if not (code in (…) and m in (…) or code in (…) and m in (…))` expected: %s' % ast.unparse(t))
+    (v['redirSafeCodes'], v['redirSafeMethods']), (v['redirUnsafeCodes'], v['redirUnsafeMethods']) = pairs
+    r = b[1].body
+    if not (len(r) == 1 and isinstance(r[0], ast.Raise) and isinstance(r[0].exc, ast.Call) and isinstance(r[0].exc.func, ast.Name)):
+        raise Fail('redirect_request: raise <Class>(…) expected in the refusal branch')
+    v['redirErrorClass'] = r[0].exc.func.id
+    c = b[2].value
+    if not (ast.unparse(b[2].targets[0]) == 'new_request' and isinstance(c, ast.Call) and ast.unparse(c.func) == 'Request'
+            and len(c.args) == 1):
+        raise Fail('redirect_request: new_request = Request(<url>, …) expected')
+    kw = {k.arg: ast.unparse(k.value) for k in c.keywords}
+    if kw != {'headers': 'req.headers', 'origin_req_host': 'req.origin_req_host', 'unverifiable': 'True', 'data': 'req.data'}:
+        raise Fail('redirect_request: fields copied to the new request changed: %s' % sorted(kw.items()))
+    u = c.args[0]
+    if not (isinstance(u, ast.Call) and ast.unparse(u.func) == 'newurl.replace' and len(u.args) == 2 and not u.keywords):
+        raise Fail('redirect_request: newurl.replace(a, b) expected: %s' % ast.unparse(u))
+    v['redirSpaceFrom'], v['redirSpaceTo'] = const(u.args[0], str), const(u.args[1], str)
+    if len(v['redirSpaceFrom']) != 1:
+        raise Fail('redirect_request: a single character is replaced in the model')
+    if ast.unparse(b[3]) != 'new_request.method = m' or ast.unparse(b[4]) != 'return new_request':
+        raise Fail('redirect_request: new_request.method = m; return new_request expected')
 
 
 def generate(repo):
@@ -232,6 +426,7 @@ def generate(repo):
         for n in ast.walk(tree):      # the name must not be rebound at module level
             if isinstance(n, (ast.FunctionDef, ast.ClassDef)) and n.name == used:
                 raise Fail('%s is redefined in the module' % used)
+        _handlers(tree, v)
         return _emit(True, v)
     except Fail as e:
         return _emit(False, v, str(e))
